@@ -58,6 +58,10 @@ var c05MaskSS = regexp.MustCompile(`^fb ss=\d+ `)
 func c05SndCase(r *Rng, tier string, idx int) Case {
 	classes := []string{"steady", "bursty", "idle", "reorder", "ticks", "wrap", "streams", "streamsmix", "writefail", "malformed", "slowwrite", "latebind"}
 	cl := classes[idx%len(classes)]
+	// 4 long runs in the quick tier (360 cases), 80 in the thorough tier (7200 cases)
+	if idx%90 == 47 {
+		return c05SndLongCase(r)
+	}
 	if cl == "slowwrite" || cl == "latebind" {
 		return c05SndSlowCase(r, cl)
 	}
@@ -133,6 +137,36 @@ func c05SndCase(r *Rng, tier string, idx int) Case {
 		return Case{Class: class, Ops: c05AmbientFail(r, ops)}
 	}
 	return Case{Class: cl, Ops: c05Ambient(r, ops)}
+}
+
+// c05SndLongCase: class `longrun` — ONE binding of the interceptor (one Recorder) that lives for 260..640 feedback
+// intervals with a packet or two in each: the 8-bit feedback packet count of its reports passes 255 once or twice
+// ("increases by one per packet (mod 256)" is about every report of a session, and sessions last hours).  Intervals
+// without any packet (no report, no count used up) and with a lost number are mixed in.
+func c05SndLongCase(r *Rng) Case {
+	interval := r.Pick(20, 50, 100)
+	ops := []string{fmt.Sprintf("cfg interval=%d media=%d", interval, r.U64()&0xFFFFFFFF)}
+	seq := r.Intn(65536)
+	target := r.Pick(260, 300, 515, 530, 640)
+	for pk := 0; pk < target; {
+		left := interval * 1000
+		switch r.Intn(8) {
+		case 0: // nothing arrives during this interval
+		case 1: // two packets, a number lost between them
+			d := r.Range(1, left/2)
+			ops = append(ops, fmt.Sprintf("pkt seq=%d", seq&0xFFFF), fmt.Sprintf("adv us=%d", d), fmt.Sprintf("pkt seq=%d", (seq+2)&0xFFFF))
+			seq += 3
+			left -= d
+			pk++
+		default:
+			ops = append(ops, fmt.Sprintf("pkt seq=%d", seq&0xFFFF))
+			seq++
+			pk++
+		}
+		ops = append(ops, fmt.Sprintf("adv us=%d", left))
+	}
+	ops = append(ops, fmt.Sprintf("adv us=%d", r.Pick(100000, 250000)))
+	return Case{Class: "longrun", Ops: c05Ambient(r, ops)}
 }
 
 // c05FailSched draws the calls of the bottom RTCP writer that fail: one, two in a row, a few scattered ones, every
